@@ -382,7 +382,50 @@ def case_D(c):
         F.clean()
 
 
-FAM = {"A": case_A, "B": case_B, "N": case_N, "F": case_F, "D": case_D}
+REG_EXPRS = [lambda: B("-", B("*", N("2"), lang.Q(0)), B("/", lang.Q(3), N("4"))), lambda: lang.Q(1), lambda: B("+", B("*", lang.Q(0), lang.Q(5)), N("1")), lambda: U("-", lang.Q(3))]
+
+
+def case_R(c):
+    """measured-register expressions as the values of an include call's keyword arguments: the inlined operations
+    carry them (as register transforms), for bare parameters and for expressions of parameters, directly and handed
+    on through a second template"""
+    base, form, nest, e1, e2, twice = c
+    F = Files(_dir(base))
+    try:
+        if form == "bare":
+            inner_items = [("stmt", "Z", [P("g")], [], [N("0")], "none"), ("stmt", "X", [N("0.5")], [("k", P("g")), ("l", P("h"))], [N("1")], "none"), ("stmt", "Y", [P("h"), N("2")], [], [N("1"), N("0")], "sq")]
+        else:
+            inner_items = [("stmt", "Z", [B("+", B("*", N("2"), P("g")), N("1"))], [], [N("0")], "none"), ("stmt", "X", [P("h")], [("k", B("-", P("g"), B("*", N("3"), P("h"))))], [N("1")], "none")]
+        inner = dict(name="Inner", version="1.0", items=inner_items)
+        lib = {"inner.xbb": inner}
+        F.write("inner.xbb", lang.render(inner))
+        callee = "Inner"
+        incs = ["inner.xbb"]
+        if nest:
+            mid = dict(name="Mid", version="1.0", includes=["inner.xbb"], items=[("stmt", "M", None, [], [N("0")], "none"), ("stmt", "Inner", [], [("g", P("h")), ("h", P("g"))], [N("1"), N("0")], "sq")])
+            lib["mid.xbb"] = mid
+            F.write("mid.xbb", lang.render(mid))
+            callee = "Mid"
+            incs = ["mid.xbb"]
+        A_, B_ = REG_EXPRS[e1](), REG_EXPRS[e2]()
+        items = [("stmt", "MeasureX", None, [], [N("0")], "none"), ("stmt", callee, [], [("g", A_), ("h", B_)], [N("4"), N("6")], "sq")]
+        if twice:
+            items += [("stmt", "G", [A_], [], [N("2")], "none"), ("stmt", callee, [], [("g", B_), ("h", N("0.25"))], [N("6"), N("4")], "sq")]
+        main = dict(name="M", version="1.0", includes=incs, items=items)
+        mp = F.write("main.xbb", lang.render(main))
+        os.chdir(F.root)
+        r = judge(main, lib, mp)
+        if r is None:
+            return None
+        if form == "expr" and r[0] == "load-raises:TypeError" and "RegRefTransform" in r[1]:
+            return ("C07/register-expression-bound-inside-an-expression", "form=%s nest=%s: %s" % (form, nest, r[1]))
+        return ("C07/register-arguments-%s" % r[0], "form=%s nest=%s exprs=%d,%d twice=%s: %s" % (form, nest, e1, e2, twice, r[1]))
+    finally:
+        os.chdir("/")
+        F.clean()
+
+
+FAM = {"A": case_A, "B": case_B, "N": case_N, "F": case_F, "D": case_D, "R": case_R}
 
 
 @common.guarded("C07")
@@ -414,6 +457,8 @@ def build(ctx, base):
     for k in (2, 3):
         for fwd, mid_names, main_kind in itertools.product(FWD[k], MID_NAMES[k], MAIN_KINDS):
             cases.append(("F", (base, k, fwd, mid_names, main_kind)))
+    for form, nest, e1, e2, twice in itertools.product(("bare", "expr"), (False, True), range(len(REG_EXPRS)), range(len(REG_EXPRS)), (False, True)):
+        cases.append(("R", (base, form, nest, e1, e2, twice)))
     for graph, np_, cwdsel, argstyle in itertools.product(GRAPHS, (0, 1), ("scriptdir", "root", "unrelated"), ("abs", "rel")):
         cases.append(("D", (base, graph, np_, cwdsel, argstyle)))
     return cases
@@ -437,11 +482,11 @@ def run(ctx):
                    "interleaved with statements, with a second subroutine); B: 6 directory layouts x {single, duplicate, differently spelt duplicate} include line x 4 working directories x {absolute, relative} load argument x {plain, template}; "
                    "N: nesting depth 1-3 with the inner subroutine also called directly {never, before, after, both} x 4 cwds x 2 argument styles x {plain, template}; "
                    "F: two levels of templates, the middle one handing its 2-3 parameters on to the inner one in every pattern (straight, crossed, cyclic, repeated, inside expressions, mixed with constants) x parameter names shared / rotated / disjoint between the levels x main program numeric / template / crossed; "
-                   "D: include graphs that are not chains (diamond, shared leaf at several levels, a file included directly and indirectly in both orders, differently spelt paths to one file, one path string naming different files) x plain/template x 3 cwds x 2 argument styles. every case calls an included program (non-trivial); distinct by construction",
+                   "R: measured-register expressions as values of an include call's keyword arguments (bare parameters / expressions of parameters in the template x direct / through a second template x 4x4 expressions x once / twice); D: include graphs that are not chains (diamond, shared leaf at several levels, a file included directly and indirectly in both orders, differently spelt paths to one file, one path string naming different files) x plain/template x 3 cwds x 2 argument styles. every case calls an included program (non-trivial); distinct by construction",
            "samples": [repr((c[0],) + tuple(c[1][1:])) for c in common.sample(cases, 5)], "exhaustive": True, "by_family": dict(fam),
            "cases_where_set_iteration_order_is_not_increasing": unsorted_iter}
     return {"coverage": cov, "violations": Vs.records(),
-            "assumptions": ["register references inside included programs are not generated (the property does not say how they are renamed)", "positional arguments of include calls are not generated"]}
+            "assumptions": ["register references inside included programs are not generated (the property does not say how they are renamed); register expressions as call arguments are (family R)", "positional arguments of include calls are not generated"]}
 
 
 def replay(case):
